@@ -60,6 +60,11 @@ type World struct {
 	preds           map[*ssa.Function]*ISet // tag predicate summaries
 	rets            map[retKey]ISet
 	rolesCache      map[string]*ssa.Function
+	roleNames       map[*ssa.Function]string // roles_discover.go: discovered function -> conventional role name
+	initMem         *ceval                   // initvals.go: package variables after initialisation
+	initOnly        map[*ssa.Function]bool   // frozen.go
+	roGlobals       map[*ssa.Global]bool     // frozen.go
+	frozen          map[*cell]bool           // frozen.go
 	encCache        map[*ssa.Function]*encInfo
 	lenEncCache     map[*ssa.Function]*lenEncInfo
 	chunkReadCache  map[*ssa.Function][]chunkRead
